@@ -25,6 +25,7 @@ import (
 	"fmt"
 	"hash/maphash"
 	"io"
+	"os"
 	"sort"
 	"testing"
 
@@ -775,9 +776,15 @@ func (w *w8World) save(actor string) {
 
 func (w *w8World) restart(what string, dmg, pos, bit, readFailAt int) {
 	d := w.disk
-	w.r.Sched("restart", "world")
+	if d.dead && !w.loud {
+		// whether the armed crash point was reached depends on how many writes the Save made, which
+		// in a quiet run depends on map order: neither logged nor part of the schedule signature
+		w.r.Extra["crash_restarts_unlogged"]++
+	} else {
+		w.r.Sched("restart", "world")
+		w.r.Event("world", "restart %s dmg=%d pos=%d bit=%d readfail=%d", what, dmg, pos, bit, readFailAt)
+	}
 	d.dead = false
-	w.r.Event("world", "restart %s dmg=%d pos=%d bit=%d readfail=%d", what, dmg, pos, bit, readFailAt)
 	if res := d.externalDamage(dmg, pos, bit); res != "none" {
 		what += "-" + res
 	}
@@ -1273,6 +1280,14 @@ func w8Exec(t *testing.T, r *verifsim.Run) {
 	src := verifsim.NewSplitMix(r.C.Seed ^ 0x77383838)
 	pgrand.SetSimSource(src.Next)
 	defer pgrand.SetSimSource(nil)
+	defer func() {
+		if os.Getenv("W8_DUMP") != "" {
+			fmt.Println("CONFIG", r.Config)
+			for _, e := range r.Events() {
+				fmt.Println("EV", e)
+			}
+		}
+	}()
 	if r.C.Intn(4, "mode") == 3 {
 		w8RawRun(r)
 		return
